@@ -16,10 +16,11 @@ func init() {
 	register(&Prop{
 		ID:          "C01",
 		Title:       "Value/Collection conform to a sequential register/map specification",
-		Explanation: "R01.1 failed calls have no effect: save is reachable only after a successful read and change; Validate errors return before GetAndUpdate; publishing is guarded by GetAndUpdate's nil error; in Delete the map delete and the REMOVE event are guarded by exists and by both preconditions; no possibly-non-nil error is returned after an effect (one allow-listed exception: the documented send timeout of Value.set). R01.2 the change function runs expected-value, expected-check, interceptBefore, masked merge, interceptAfter in this order, merges into dst (or a fresh message) and returns it. R01.3 the complete decision table of Collection.Update's read callback (generated id, exists, expect-absent, create-if-absent, callbacks) matches the specified outcomes. R01.4 List results pass through an ascending sort on the item id. R01.5 GenerateUniqueId only returns a candidate that passed the non-empty and not-exists tests on that path, in a constant-bounded loop ending in an error. R01.6 status codes of each failure class. R01.7 the id interceptor is applied in Get/Update/Delete/PullID and a generated id is mapped through it before it is used as key and reported. R01.19 every yes/no switch of a write request is turned on by exactly one option (generate-id does not imply create-if-absent). R01.20 the change time the register remembers is the time of the write (shared with R04.3). Does NOT decide equality of results and contents with a reference model over call sequences, merge semantics (C05) or interceptor behaviour.",
+		Explanation: "R01.1 failed calls have no effect: save is reachable only after a successful read and change; Validate errors return before GetAndUpdate; publishing is guarded by GetAndUpdate's nil error; in Delete the map delete and the REMOVE event are guarded by exists and by both preconditions; no possibly-non-nil error is returned after an effect (one allow-listed exception: the documented send timeout of Value.set). R01.2 the change function runs expected-value, expected-check, interceptBefore, masked merge, interceptAfter in this order, merges into dst (or a fresh message) and returns it. R01.3 the complete decision table of Collection.Update's read callback (generated id, exists, expect-absent, create-if-absent, callbacks) matches the specified outcomes. R01.4 List results pass through an ascending sort on the item id. R01.5 GenerateUniqueId only returns a candidate that passed the non-empty and not-exists tests on that path, in a constant-bounded loop ending in an error. R01.6 status codes of each failure class. R01.7 the id interceptor is applied in Get/Update/Delete/PullID and a generated id is mapped through it before it is used as key and reported. R01.19 every yes/no switch of a write request is turned on by exactly one option (generate-id does not imply create-if-absent). R01.20 the change time the register remembers is the time of the write (shared with R04.3). R01.21 a Collection method that hands its id to another id-taking method passes it unmapped (the interceptor is applied once). Does NOT decide equality of results and contents with a reference model over call sequences, merge semantics (C05) or interceptor behaviour.",
 		Assumptions: []string{"sort.Slice sorts by the given less function", "status.Error(f) builds a status with the given code"},
 		Run:         runC01,
 		Controls: []Control{
+			{Name: "add-maps-the-id-before-handing-it-on", File: "pkg/resource/collection.go", Old: "func (c *Collection) Add(id string, body proto.Message, opts ...WriteOption) (proto.Message, error) {\n", New: "func (c *Collection) Add(id string, body proto.Message, opts ...WriteOption) (proto.Message, error) {\n\tif c.idInterceptor != nil {\n\t\tid = c.idInterceptor(id)\n\t}\n", Expect: "R01.21"},
 			{Name: "gen-id-implies-create", File: "pkg/resource/opt.go", Old: "\t\twr.genEmptyID = true\n", New: "\t\twr.genEmptyID = true\n\t\twr.createIfAbsent = true\n", Expect: "R01.19"},
 			{Name: "value-remembers-the-clock-not-the-write-time", File: "pkg/resource/value.go", Old: "r.changeTime = changeTime", New: "r.changeTime = r.clock.Now()", Expect: "R01.20"},
 			{Name: "update-converts-every-error", File: "pkg/resource/collection.go", Old: "\t\tif s, ok := status.FromError(err); ok {\n\t\t\treturn nil, status.Errorf(s.Code(), \"%v %v\", s.Message(), id)\n\t\t}\n\t\treturn nil, err", New: "\t\ts := status.Convert(err)\n\t\treturn nil, status.Errorf(s.Code(), \"%v %v\", s.Message(), id)", Expect: "R01.18"},
@@ -79,6 +80,8 @@ func runC01(c *an.Ctx) {
 	c.Min("R01.18", 1)
 	r0119(c, "R01.19")
 	c.Min("R01.19", 3)
+	r0121(c, "R01.21")
+	c.Min("R01.21", 1)
 	// the time the register remembers is the time of the write (the event's and the seed's): shared with R04.3
 	c.Min("R01.20", shareAs(c, "R04.3", "R01.20", r043, nil))
 	r0116(c, "R01.16")
@@ -1836,6 +1839,61 @@ func r0117as(c *an.Ctx, rule string) {
 		}
 	}
 	c.Count("save_callbacks", n)
+}
+
+// r0121: an id is mapped through the interceptor ONCE. The methods that take an id map it themselves (R01.7); a method
+// that hands its id on to another of them (Add to Update) passes the id it was given, not one it has already mapped.
+// With an interceptor that is not idempotent (a namespace prefix) a doubly mapped id stores the item under f(f(id)),
+// where Get, Update and Delete of the same id do not find it and a second Add succeeds.
+func r0121(c *an.Ctx, rule string) {
+	mapping := map[string]bool{"Get": true, "Update": true, "Delete": true, "PullID": true, "Add": true}
+	n := 0
+	for _, fn := range c.Prog.FuncsIn(resPkg) {
+		if strings.HasSuffix(c.Prog.RelFile(fn.Pos()), "_test.go") {
+			continue
+		}
+		top := fn
+		for top.Parent() != nil {
+			top = top.Parent()
+		}
+		if top.Signature.Recv() == nil || !strings.HasSuffix(an.NamedTypeName(top.Signature.Recv().Type()), "pkg/resource.Collection") {
+			continue
+		}
+		an.Instrs(fn, func(in ssa.Instruction) {
+			call, ok := in.(*ssa.Call)
+			if !ok {
+				return
+			}
+			g := call.Call.StaticCallee()
+			if g == nil || g.Signature.Recv() == nil || !mapping[g.Name()] || !strings.HasSuffix(an.NamedTypeName(g.Signature.Recv().Type()), "pkg/resource.Collection") {
+				return
+			}
+			// the id argument: the first string argument after the receiver
+			var id ssa.Value
+			for _, a := range call.Call.Args[1:] {
+				if b, isB := a.Type().Underlying().(*types.Basic); isB && b.Kind() == types.String {
+					id = a
+					break
+				}
+			}
+			if id == nil {
+				return
+			}
+			n++
+			mapped := false
+			for _, s0 := range an.Sources(id) {
+				if dc, isC := s0.(*ssa.Call); isC && an.CalleeName(dc) == "dynamic" {
+					if _, _, f, isF := an.FieldOf(dc.Call.Value); isF && f == "idInterceptor" {
+						mapped = true
+					}
+				}
+			}
+			c.SawFunc(an.FuncName(top))
+			c.Check(!mapped, rule, fmt.Sprintf("%s|hands %s the id as it was given", an.FuncName(top), g.Name()), call.Pos(), "the id passed on is not already mapped",
+				"the id is mapped through the id interceptor and then handed to "+g.Name()+", which maps it again: with an interceptor that is not idempotent the item is stored under f(f(id)) and the other operations on the same id miss it")
+		})
+	}
+	c.Count("id_handovers", n)
 }
 
 // r0119: a write option configures one thing. Each yes/no switch of a write request (create if absent, expect
